@@ -18,3 +18,22 @@ func unmarshalG2(g []byte) (*blst.P2Affine, error) {
 	}
 	return p, nil
 }
+
+// OffSubgroupGamma returns 96 bytes that decompress to a point of the twist curve outside G2 (found by walking
+// the x coordinate of a valid point until it is on the curve again; almost every such point is outside).
+func OffSubgroupGamma(valid []byte) []byte {
+	b := append([]byte{}, valid...)
+	for i := 0; i < 4000; i++ {
+		for k := len(b) - 1; k >= 48; k-- {
+			b[k]++
+			if b[k] != 0 {
+				break
+			}
+		}
+		p := new(blst.P2Affine).Uncompress(b)
+		if p != nil && !p.InG2() {
+			return b
+		}
+	}
+	return nil
+}
